@@ -95,8 +95,18 @@ pub fn run_history(st: &mut CSt, sp: &Space, index: u64) {
     let rec = Rc::new(RecState::default());
     let mut sampler = CongressSampleBuilder::default()
         .target_entries_per_interval(TARGET)
-        .interval(Duration::from_secs(86_400))
+        .interval(Duration::from_secs(86_400 * 365_000))
         .build_with_rng(Recorder(rec.clone()), script.clone());
+    // a second sampler whose intervals end by the clock (hook: a per-thread offset on the clock it
+    // reads): between two hand-made intervals of the first one, the clock jumps over 1, 2 or 5
+    // of its one-hour intervals - an idle gap. It sees the same entries and the same draws and
+    // must treat every entry exactly like the first sampler.
+    let script2 = Script::default();
+    let rec2 = Rc::new(RecState::default());
+    let mut by_clock = CongressSampleBuilder::default()
+        .target_entries_per_interval(TARGET)
+        .interval(Duration::from_secs(3600))
+        .build_with_rng(Recorder(rec2.clone()), script2.clone());
     // The sampler starts its first interval at the first `format` call whose `Instant::now()` is
     // strictly later than the instant of construction, by running one rate update. Make sure that
     // is the very first call (an update on empty state), whatever the clock resolution, so that no
@@ -111,6 +121,10 @@ pub fn run_history(st: &mut CSt, sp: &Space, index: u64) {
     let mut sink = std::io::sink();
     let mut id = 0u64;
     st.histories += 1;
+    // the clock-driven sampler ends an interval when the first entry after the boundary arrives:
+    // a hand-made interval without any entry has no counterpart there (its time simply belongs
+    // to the previous interval), so the two samplers are compared up to the first empty interval
+    let mut lockstep = true;
     for (t, vols) in hist.iter().enumerate() {
         let replay = |known: &[Option<(f32, f32, u8)>], extra: Value| json!({"part": "congress", "space": sp.name, "target": TARGET, "groups": &GROUP_NAMES[..sp.groups],
             "history_of_group_volumes": &hist[..=t], "failing_interval_index": t, "state_when_it_failed": state_json(known), "detail": extra});
@@ -129,6 +143,23 @@ pub fn run_history(st: &mut CSt, sp: &Space, index: u64) {
                 let before = rec.calls.get();
                 let res = sampler.format(&IdEntry { id, group: Some(GROUP_NAMES[g]) }, &mut sink);
                 let reached = rec.calls.get() - before;
+                if lockstep {
+                    script2.set_f32_draw(k, (j * 37) & 0xFF);
+                    let before2 = rec2.calls.get();
+                    let _ = by_clock.format(&IdEntry { id, group: Some(GROUP_NAMES[g]) }, &mut sink);
+                    let reached2 = rec2.calls.get() - before2;
+                    // the sampler sums over a hash map of groups: two instances may differ in the last
+                    // bits of a rate (iteration order), so rates are compared with the relative slack
+                    // of the other invariants, and decisions only where the draw is not that close
+                    let (r1, r2) = (f32::from_bits(rec.last_rate_bits.get()) as f64, f32::from_bits(rec2.last_rate_bits.get()) as f64);
+                    let draw_near_rate = ((k as f64) / TWO24 - rate as f64).abs() <= rate as f64 * REL_TOL + 1.0 / TWO24;
+                    let decision_differs = reached2 != reached && !draw_near_rate;
+                    let rate_differs = reached > 0 && reached2 > 0 && (r1 - r2).abs() > r1 * REL_TOL;
+                    if decision_differs || rate_differs {
+                        vadd!(st.v, "congress:interval-by-clock-differs-from-interval-by-hand", format!("after idle gaps of whole intervals the clock-driven sampler treats an entry differently: reached the inner format {reached2} times with rate {:e}, the sampler whose intervals were ended by hand {reached} times with rate {:e}", f32::from_bits(rec2.last_rate_bits.get()), f32::from_bits(rec.last_rate_bits.get())),
+                            replay(&known, json!({"group": GROUP_NAMES[g], "entry_in_interval": j, "idle_gaps_in_intervals_before_each_interval": "1, 2, 5, 1, 2, 5, ..."})));
+                    }
+                }
                 st.entries += 1;
                 let expect = rate == 1.0 || (k as f64) <= rate as f64 * TWO24;
                 if rate != 1.0 {
@@ -165,6 +196,11 @@ pub fn run_history(st: &mut CSt, sp: &Space, index: u64) {
             }
         }
         sampler.__verif_end_interval();
+        if vols.iter().sum::<u32>() == 0 {
+            lockstep = false;
+        }
+        // the clock-driven sampler: this interval ends and an idle gap follows
+        metrique_writer::sample::__verif_congress_clock::advance(Duration::from_secs(3600 * [1, 2, 5][t % 3] + 1));
         st.intervals += 1;
         let mut now: [Option<(f32, f32, u8)>; 3] = [None; 3];
         for (group, avg, rate, idle) in sampler.__verif_group_state() {
